@@ -18,6 +18,7 @@ ARG = {
     "vecu8": ("Vec<u8>", ["vec![]", "vec![1]", "vec![1, 2]", "vec![12]", "vec![0]", "vec![1, 23]", "vec![12, 3]", "vec![2, 1]"]),
     "tup": ("(u32, String)", ['(1, "23".to_string())', '(12, "3".to_string())', '(1, "2|3".to_string())', '(0, "".to_string())',
                               '(0, "|".to_string())', '(7, "a".to_string())', '(7, "b".to_string())', '(8, "a".to_string())']),
+    "idx": ("u32", ["0", "1", "2", "3", "4", "5", "6", "7"]),
     "f64": ("f64", ["0.0", "1.0", "-1.0", "0.5", "1.5", "12.0", "1e10", "-0.5"]),
 }
 # two string arguments whose concatenations collide unless boundaries are kept
@@ -45,7 +46,7 @@ FNS = []
 
 def add(**kw):
     d = dict(kind="sync", scope="global", policy=None, limit=None, ttl=None, mem=None, weight=None, name=None,
-             tags=[], events=[], deps=[], inv_on=False, cache_if=False, ret="p0", sig=["u32"], recv=None, family="")
+             tags=[], events=[], deps=[], inv_on=False, cache_if=False, ret="p0", sig=["u32"], recv=None, family="", nest=None)
     d.update(kw)
     if d["kind"] == "async":
         d["scope"] = "global"
@@ -128,6 +129,24 @@ add(kind="sync", scope="thread", sig=["String", "u32"], recv="ref", family="rece
 for kind in ("sync", "async"):
     add(kind=kind, name=f"custom_{kind}_a", family="name")
     add(kind=kind, name=f"custom {kind} with spaces", limit=2, policy="lru", family="name")
+
+# bodies that call other decorated functions / themselves (README's recursive pattern); used by the
+# scheduled engines only. nest = list of (offset of the callee in this block, decrement)
+NEST0 = len(FNS)
+add(kind="sync", sig=["idx"], family="nested", policy="lru", limit=2, tags=["n"], nest=[(1, 1)])           # A -> B
+add(kind="sync", sig=["idx"], family="nested", policy="fifo", limit=1, events=["n"], nest=[(2, 1)])        # B -> C
+add(kind="sync", sig=["idx"], family="nested", policy="lfu", limit=2, ttl=2, tags=["n"], nest=[(0, 1)])    # C -> A
+add(kind="sync", sig=["idx"], family="nested", limit=3, policy="lru", nest=[(3, 1), (3, 2)])               # fib-like self recursion
+add(kind="async", sig=["idx"], family="nested", policy="lru", limit=2, tags=["n"], nest=[(5, 0)])          # async A -> async B
+add(kind="async", sig=["idx"], family="nested", policy="fifo", limit=1, dependencies=None)                 # async B (leaf)
+add(kind="sync", sig=["idx"], family="nested", max_memory="600", policy="arc", nest=[(0, 1)])              # memory-bounded -> A
+for d in FNS[NEST0:]:
+    d.pop("dependencies", None)
+
+for kind, scope in (("sync", "global"), ("sync", "thread"), ("async", "global")):
+    add(kind=kind, scope=scope, sig=["u32"], family="early_return", early_return=True)
+    add(kind=kind, scope=scope, sig=["u32", "String"], family="early_return", early_return=True, limit=2, policy="lru")
+    add(kind=kind, scope=scope, sig=["u32"], family="early_return", early_return=True, ret="r0")
 
 out = []
 w = out.append
@@ -255,7 +274,19 @@ for i, f in enumerate(FNS):
         w(f"fn inv_{name}(key: &String, v: &{ret}) -> bool {{ world::inv_on({fid}, key, v) }}")
     if f["cache_if"]:
         w(f"fn cif_{name}(key: &String, v: &{ret}) -> bool {{ world::cache_if({fid}, key, v) }}")
-    fn_src = (f"#[{macro}({attr_s})]\npub {asynck}fn {name}({', '.join(decl_params)}) -> {ret} {{\n"
+    nest_src = ""
+    if f.get("nest"):
+        for (off, dec) in f["nest"]:
+            callee = f"f{NEST0 + off:03}"
+            aw = ".await" if FNS[NEST0 + off]["kind"] == "async" else ""
+            if dec == 0:
+                nest_src += f"    let _ = {callee}(a0){aw};\n"
+            else:
+                nest_src += f"    if a0 >= {dec} {{ let _ = {callee}(a0 - {dec}){aw}; }}\n"
+    if f.get("early_return"):
+        # guard clause: odd first arguments leave the body through an explicit `return`
+        nest_src += f"    if a0 % 2 == 1 {{\n        return {body_fn}::<{ret}>({fid}, {repr_expr}){awaitk};\n    }}\n"
+    fn_src = (f"#[{macro}({attr_s})]\npub {asynck}fn {name}({', '.join(decl_params)}) -> {ret} {{\n{nest_src}"
               f"    {body_fn}::<{ret}>({fid}, {repr_expr}){awaitk}\n}}")
     if recv is None:
         w(fn_src)
